@@ -16,9 +16,11 @@ import Rl4co.Proofs.MtvrpRun
 namespace Rl4co.Mtvrp
 open Rl4co.Spec.Mtvrp
 
-/-- **C01 (MTVRP), strict form**: what the mask really guarantees — every deadline is met with slack. -/
-theorem feasibleStrict_of_run (i : Inst) (hx : Excl i) (hcap : 0 ≤ i.cap) {as : List Nat} {s : State}
-    (h : Run env i (env.reset i) as s) (hd : env.done i s = true) : FeasibleC .lt i as := by
+/-- **C01 (MTVRP).** One statement over the feature valuation of the instance (open routes or not,
+finite or infinite distance limit, finite or infinite time windows, backhauls or not, any speed): every
+mask-confined episode that the environment declares finished is a feasible solution. -/
+theorem feasible_of_run (i : Inst) (hx : Excl i) (hcap : 0 ≤ i.cap) {as : List Nat} {s : State}
+    (h : Run env i (env.reset i) as s) (hd : env.done i s = true) : Feasible i as := by
   obtain ⟨h1, _, h3, h4⟩ := visits_of_run i h
   refine ⟨h1, ?_, ?_⟩
   · intro j hj1 hj2
@@ -36,16 +38,6 @@ theorem feasibleStrict_of_run (i : Inst) (hx : Excl i) (hcap : 0 ≤ i.cap) {as 
     · subst hh
       exact routeOk_of_cont (s := reset i) rfl rfl rfl rfl rfl (this.1 hne)
     · exact this.2 r hh hne
-
-theorem feasibleC_weaken {i : Inst} {as : List Nat} (h : FeasibleC .lt i as) : Feasible i as :=
-  ⟨h.range, h.once, fun r hr hne => routeOk_weaken (h.route r hr hne)⟩
-
-/-- **C01 (MTVRP).** One statement over the feature valuation of the instance (open routes or not,
-finite or infinite distance limit, finite or infinite time windows, backhauls or not, any speed): every
-mask-confined episode that the environment declares finished is a feasible solution. -/
-theorem feasible_of_run (i : Inst) (hx : Excl i) (hcap : 0 ≤ i.cap) {as : List Nat} {s : State}
-    (h : Run env i (env.reset i) as s) (hd : env.done i s = true) : Feasible i as :=
-  feasibleC_weaken (feasibleStrict_of_run i hx hcap h hd)
 
 /-- Non-vacuity: `exInst` (closed routes, a linehaul and a backhaul customer, distance limit, time
 windows) and its finished mask-confined run `[1, 2, 0]`. -/
